@@ -166,6 +166,8 @@ svalue_t* call_efun_callback (function_to_call_t * ftc, int n) {
 }
 
 static svalue_t global_lvalue_byte = { .type = T_LVALUE_BYTE };
+/* nonzero while global_lvalue_byte designates an element of a buffer: a buffer, unlike a string, can hold a zero byte */
+static int lvalue_byte_in_buffer = 0;
 
 /**
  * Compute the address of an array element.
@@ -209,6 +211,7 @@ static void push_indexed_lvalue (int reverse) {
             sp->type = T_LVALUE;
             sp->u.lvalue = &global_lvalue_byte;
             global_lvalue_byte.u.lvalue_byte = (unsigned char *) &lv->u.string[ind];
+            lvalue_byte_in_buffer = 0;
             break;
           }
 
@@ -221,6 +224,7 @@ static void push_indexed_lvalue (int reverse) {
             sp->type = T_LVALUE;
             sp->u.lvalue = &global_lvalue_byte;
             global_lvalue_byte.u.lvalue_byte = &lv->u.buf->item[ind];
+            lvalue_byte_in_buffer = 1;
             break;
           }
 
@@ -284,6 +288,7 @@ static void push_indexed_lvalue (int reverse) {
             (--sp)->type = T_LVALUE;
             sp->u.lvalue = &global_lvalue_byte;
             global_lvalue_byte.u.lvalue_byte = (sp + 1)->u.buf->item + ind;
+            lvalue_byte_in_buffer = 1;
             break;
           }
 
@@ -875,7 +880,7 @@ void eval_instruction (const char *p) {
               lval->u.real++;
               break;
             case T_LVALUE_BYTE:
-              if (*global_lvalue_byte.u.lvalue_byte == (unsigned char) 255)
+              if (*global_lvalue_byte.u.lvalue_byte == (unsigned char) 255 && !lvalue_byte_in_buffer)
                 error ("*Strings cannot contain 0 bytes.");
               ++*global_lvalue_byte.u.lvalue_byte;
               break;
@@ -1430,7 +1435,7 @@ void eval_instruction (const char *p) {
 
                 c = *global_lvalue_byte.u.lvalue_byte + (char)sp->u.number;
 
-                if (c == '\0')
+                if (c == '\0' && !lvalue_byte_in_buffer)
                   error ("*Strings cannot contain 0 bytes.");
                 *global_lvalue_byte.u.lvalue_byte = c;
               }
@@ -1734,7 +1739,7 @@ void eval_instruction (const char *p) {
                 else
                   {
                     c = ((sp - 1)->u.number & 0xff);
-                    if (c == '\0')
+                    if (c == '\0' && !lvalue_byte_in_buffer)
                       error ("*Strings cannot contain NUL character.");
                     *global_lvalue_byte.u.lvalue_byte = c;
                   }
@@ -1778,7 +1783,7 @@ void eval_instruction (const char *p) {
                     else
                       {
                         char c = (sp--)->u.number & 0xff;
-                        if (c == '\0')
+                        if (c == '\0' && !lvalue_byte_in_buffer)
                           error ("*Strings cannot contain 0 bytes.");
                         *global_lvalue_byte.u.lvalue_byte = c;
                       }
@@ -1891,7 +1896,7 @@ void eval_instruction (const char *p) {
               sp->u.real = --(lval->u.real);
               break;
             case T_LVALUE_BYTE:
-              if (*global_lvalue_byte.u.lvalue_byte == '\x1')
+              if (*global_lvalue_byte.u.lvalue_byte == '\x1' && !lvalue_byte_in_buffer)
                 error ("*Strings cannot contain 0 bytes.");
               sp->type = T_NUMBER;
               sp->subtype = 0;
@@ -1913,7 +1918,7 @@ void eval_instruction (const char *p) {
               lval->u.real--;
               break;
             case T_LVALUE_BYTE:
-              if (*global_lvalue_byte.u.lvalue_byte == '\x1')
+              if (*global_lvalue_byte.u.lvalue_byte == '\x1' && !lvalue_byte_in_buffer)
                 error ("*Strings cannot contain NUL char.");
               --(*global_lvalue_byte.u.lvalue_byte);
               break;
@@ -2021,7 +2026,7 @@ void eval_instruction (const char *p) {
               sp->u.real = ++lval->u.real;
               break;
             case T_LVALUE_BYTE:
-              if (*global_lvalue_byte.u.lvalue_byte == (unsigned char) 255)
+              if (*global_lvalue_byte.u.lvalue_byte == (unsigned char) 255 && !lvalue_byte_in_buffer)
                 error ("*Strings cannot contain NUL char.");
               sp->type = T_NUMBER;
               sp->subtype = 0;
@@ -2368,7 +2373,7 @@ void eval_instruction (const char *p) {
               break;
             case T_LVALUE_BYTE:
               sp->type = T_NUMBER;
-              if (*global_lvalue_byte.u.lvalue_byte == '\x1')
+              if (*global_lvalue_byte.u.lvalue_byte == '\x1' && !lvalue_byte_in_buffer)
                 error ("*Strings cannot contain NUL char.");
               sp->u.number = (*global_lvalue_byte.u.lvalue_byte)--;
               break;
@@ -2391,7 +2396,7 @@ void eval_instruction (const char *p) {
               sp->u.real = lval->u.real++;
               break;
             case T_LVALUE_BYTE:
-              if (*global_lvalue_byte.u.lvalue_byte == (unsigned char) 255)
+              if (*global_lvalue_byte.u.lvalue_byte == (unsigned char) 255 && !lvalue_byte_in_buffer)
                 error ("*Strings cannot contain NUL char.");
               sp->type = T_NUMBER;
               sp->u.number = (*global_lvalue_byte.u.lvalue_byte)++;
